@@ -76,7 +76,7 @@ func runC14(c *Ctx) {
 			n := 0
 			for _, dc := range domConds(in) {
 				switch {
-				case re(`#0\.LastBlockHeight (> const:0|!= const:0|>= const:1)\)=T$`).MatchString(dc):
+				case factMatches(dc, `#0\.LastBlockHeight (> const:0|!= const:0|>= const:1)\)=T$`):
 					n++
 				case re(`(== nil\)=F|!= nil\)=F|!= nil\)=T|== nil\)=T)$`).MatchString(dc): // record-missing / decode-error exits
 				case re(`\.InitialHeight == const:0\)=`).MatchString(dc):
